@@ -29,7 +29,7 @@ META = {
             "tree is singular; several maximum-likelihood values of a0) the independent side takes the largest admissible description length. "
             "The optimiser of the fit stage is seeded (numpy seed 1234 + run seed) and given 30 s per function instead of 5 s so that machine load "
             "cannot change the result.",
-    "technique": "composition lemmas over the stage contracts (SMT) + bounded stand-in (full pipeline on planted truths vs independent closed forms) on the real code",
+    "technique": "composition lemmas over the stage contracts (SMT) + contract on the retry guard of the numerical Hessian (AST->VC->SMT) + bounded stand-in (full pipeline on planted truths vs independent closed forms) on the real code",
 }
 CHECKER = "./bin/check C04"
 
